@@ -22,9 +22,9 @@ class Obligation:
     def formula(self):
         """The formula whose unsatisfiability discharges the obligation."""
         f = z3.And(*self.hyps, z3.Not(self.goal)) if self.hyps else z3.Not(self.goal)
-        if self.float_model == 'S' and has_float_ops(f):
+        if self.float_model in ('S', 'R') and has_float_ops(f):
             f = z3.simplify(f)      # canonical form first: equal float applications must lower to the same variables
-            g, side = lower_formula(f, exact_i2f=self.meta.get('exact_i2f', True))
+            g, side = lower_formula(f, exact_i2f=self.meta.get('exact_i2f', True), exact=self.float_model == 'R')
             f = z3.And(g, *side) if side else g
         return f
 
